@@ -1114,7 +1114,7 @@ Lemma has_suffix1_app_cons : forall c a x b, has_suffix1 c (a ++ x :: b) = has_s
 Proof.
   intros. unfold has_suffix1. rewrite rev_app_distr.
   destruct (rev (x :: b)) as [|y r] eqn:E.
-  - apply (f_equal (@length N)) in E. rewrite rev_length in E. discriminate.
+  - apply (f_equal (@List.length N)) in E. rewrite rev_length in E. discriminate.
   - reflexivity.
 Qed.
 
@@ -1242,11 +1242,10 @@ Section Sniffed.
       as [th tp] eqn:EE.
     exists th, tp. split; auto. split; auto.
     pose proof (split_host_port_clean _ _ _ HT) as [Hth _].
-    unfold spec_endpoint in EE. rewrite Hcls in EE.
-    destruct (spec_use_name _ _ _ _ _).
-    - destruct h as [|x h'].
-      + inversion EE; subst. auto.
-      + destruct (is_ip (x :: h')); inversion EE; subst; auto.
-    - inversion EE; subst. auto.
+    assert (Hcases : (th, tp) = (h, itoa (d_port dst)) \/ (th, tp) = (d_ip dst, itoa (d_port dst))).
+    { unfold spec_endpoint in EE. rewrite Hcls in EE.
+      destruct h as [|x h']; [|destruct (is_ip (x :: h'))];
+        match type of EE with (if ?b then _ else _) = _ => destruct b end; inversion EE; auto. }
+    destruct Hcases as [E|E]; inversion E; subst; repeat split; auto.
   Qed.
 End Sniffed.
